@@ -217,6 +217,28 @@ def check_souden_wmwf(run, A):
             okc = okc and derives(pos[1] if len(pos) > 1 else None, 'target_psd_matrix') and derives(pos[2] if len(pos) > 2 else None, 'noise_psd_matrix')
         run.check(okc, 'R-ROLE', f'{name}: automatic reference channel from (filter, target, noise)', fn.loc(), '', 'get_optimal_reference_channel is not called with (w_mat, target, noise)',
                   construct=f'R-ROLE::{q}::ref-channel-args')
+        # ... and the candidates that are ranked are the columns of the very matrix whose column is returned (on every path)
+        from ..walk import gamma_paths, compatible, struct_eq
+        n_rank = 0
+        for x in alts:
+            x = strip_views(x)
+            if not (x.op == 'sub' and x.args[1].op == 'tuple' and len(x.args[1].args[0]) == 2):
+                continue
+            ranked = [y for y in walk_terms(x.args[1].args[0][1]) if call_parts(y)[0] == B + 'get_optimal_reference_channel']
+            for c_ in ranked:
+                cand = call_parts(c_)[1][0] if call_parts(c_)[1] else call_arg(c_, 0, 'w_mat')
+                if cand is None:
+                    continue
+                n_rank += 1
+                same = True
+                for c1, l1 in gamma_paths(x.args[0]):
+                    for c2, l2 in gamma_paths(cand):
+                        if compatible(c1, c2) and not (strip_views(l1) is strip_views(l2) or struct_eq(strip_views(l1), strip_views(l2))):
+                            same = False
+                run.check(same, 'R-ROLE', f'{name}: the reference channel is ranked on the filter matrix whose column is returned', fn.loc(c_.node), '',
+                          'get_optimal_reference_channel is given another matrix than the one indexed with its result on some path: the output SNR is a ratio of sums over the '
+                          'bins, a per-bin scale of the candidates re-weights the bins and moves the arg-max', construct=f'R-ROLE::{q}::ranked-matrix')
+        run.count(f'{name}: automatic reference channels compared with the returned matrix', n_rank)
 
 
 def check_ref_channel(run, A):
